@@ -80,6 +80,7 @@ func main() {
 		ctx, cancel := context.WithTimeout(context.Background(), 2*time.Second)
 		var perr error
 		parsedOK := false
+		var compiled *compiler.Code
 		guard("parser.Parse", &out, func() {
 			prog, err := parser.Parse(ctx, src)
 			perr = err
@@ -91,6 +92,9 @@ func main() {
 			out = append(out, "parse:OK")
 			guard("Program.String", &out, func() { _ = prog.String() })
 			guard("compiler.Compile", &out, func() {
+				if code, err := compiler.Compile(prog); err == nil {
+					compiled = code
+				}
 				if _, err := compiler.Compile(prog); err != nil {
 					out = append(out, "compile:ERR")
 					guard("compile error.Error", &out, func() { _ = err.Error() })
@@ -138,6 +142,25 @@ func main() {
 					}
 				}
 			})
+		}
+		if compiled != nil {
+			// the host calls into the compiled code by name: every global the program declares (whether or not it ever
+			// got a value, whether or not it is a function) and a name it does not have
+			names := append([]string{}, compiled.GlobalNames()...)
+			if len(names) > 4 {
+				names = names[len(names)-4:]
+			}
+			names = append(names, "no_such_name")
+			for _, name := range names {
+				guard("risor.Call", &out, func() {
+					vos := ros.NewVirtualOS(ctx)
+					_, err := risor.Call(ctx, compiled, name, nil, risor.WithOS(vos), risor.WithConcurrency(), risor.WithoutGlobals(denied...))
+					if err != nil {
+						guard("call error.Error", &out, func() { _ = err.Error() })
+					}
+				})
+			}
+			out = append(out, fmt.Sprintf("call:%d", len(names)))
 		}
 		cancel()
 		fmt.Fprintf(w, "R %d %s\n", n, strings.Join(out, " "))
